@@ -735,11 +735,17 @@ class Interp:
             modname = ext.mod.modname
             loc = self.bind_args(st, ext, fn.closure, modname, args, kwargs)
             frame = Frame(loc, fn.closure, modname, func=fn)
+            is_gen = any(isinstance(n, (ast.Yield, ast.YieldFrom)) for n in ast.walk(ext.node))
+            if is_gen:
+                # a generator function is run to exhaustion; its value is the list of yielded values
+                # (laziness is not modelled: sound for generators without side effects between yields)
+                frame.yields = []
+                self.assumed.add("generator functions are run eagerly (list of yielded values)")
             try:
                 self.exec_block(st, frame, ext.body)
             except Return as r:
-                return r.value
-            return None
+                return VList(frame.yields) if is_gen else r.value
+            return VList(frame.yields) if is_gen else None
         finally:
             st.depth -= 1
 
@@ -1038,6 +1044,12 @@ class Interp:
         if is_num(v):
             self.raise_("TypeError", "number is not iterable")
         raise Unsupported("iteration over %r" % type(v).__name__)
+
+    def e_Yield(self, st, fr, node):
+        if not hasattr(fr, "yields"):
+            raise Unsupported("yield outside a generator frame")
+        fr.yields.append(self.eval(st, fr, node.value) if node.value is not None else None)
+        return None
 
     def e_JoinedStr(self, st, fr, node):
         return VStr("fstring")
